@@ -117,6 +117,9 @@ class C10(Check):
         if kind == "prog":
             prog["padded"] = True
             self.execute(prog, Result())
+            prog["padded"] = False
+            prog["shift_frac"] = 0.25
+            self.execute(prog, Result())
 
     # ------------------------------------------------------------------ program
     def draw(self, rng, tier, run):
@@ -193,6 +196,8 @@ class C10(Check):
         prog = {"dim": dim, "precision": precision, "flow": fi, "reset": reset, "bodies": bodies, "ops": ops}
         if all(b["kind"] == "prog" for b in bodies) and rng.random() < 0.2:
             prog["padded"] = True
+        if all(b["kind"] == "prog" for b in bodies) and rng.random() < 0.15:
+            prog["shift_frac"] = 0.25
         if rng.random() < 0.25:
             b0 = dict(bodies[0], sub=prng.sub_seed(rng), reset=False)
             prog["prelude"] = {
@@ -221,6 +226,9 @@ class C10(Check):
         if spec.get("explicit_args"):
             # the documented defaults, passed explicitly: exercises the positional pass-through of the subclasses
             common.update(eul_grid_coord_shift=real_t(dx / 2), interp_kernel_width=2)
+        if spec.get("shift_frac", 0.5) != 0.5:
+            # a grid whose first cell centre sits at shift_frac * dx instead of dx / 2 (public parameter)
+            common.update(eul_grid_coord_shift=real_t(spec["shift_frac"] * dx))
         reset = bool(spec.get("reset", reset))
 
         def build(enable_reset, forcing_field):
@@ -403,7 +411,10 @@ class C10(Check):
             velocity = np.zeros((dim, *shape), dtype=real_t)
             forcing = np.zeros((dim, *shape), dtype=real_t)
         reset = bool(program["reset"]) and len(program["bodies"]) == 1
-        bodies = [self._make_body(s, i, dim, real_t, dx, lengths, forcing, velocity, reset) for i, s in enumerate(program["bodies"])]
+        shift_frac = float(program.get("shift_frac", 0.5))
+        bodies = [self._make_body(dict(s, shift_frac=shift_frac), i, dim, real_t, dx, lengths, forcing, velocity, reset) for i, s in enumerate(program["bodies"])]
+        if shift_frac != 0.5:
+            res.probe("non_default_grid_coordinate_shift")
         reset = None  # per body from here on
         if any(x["n"] >= 500 for x in bodies):
             res.probe("many_markers")
@@ -572,7 +583,7 @@ class C10(Check):
                     # u_c(x) = a_c + sum_ax B[c][ax] * x_ax on cell centres x = (i + 1/2) dx
                     a = np.array((list(op["linear"]["a"]) + [0.0] * dim)[:dim], dtype=np.float64)
                     B = np.array(op["linear"]["B"], dtype=np.float64)[:dim, :dim]
-                    centres = [(np.arange(shape[dim - 1 - ax]) + 0.5) * float(dx) for ax in range(dim)]  # x, y(, z)
+                    centres = [(np.arange(shape[dim - 1 - ax]) + shift_frac) * float(dx) for ax in range(dim)]  # x, y(, z)
                     grids = np.meshgrid(*centres[::-1], indexing="ij")[::-1]  # arrays of x, y(, z) over (z, y, x)
                     for c in range(dim):
                         velocity[c] = (a[c] + sum(B[c, ax] * grids[ax] for ax in range(dim))).astype(real_t)
@@ -628,7 +639,7 @@ class C10(Check):
 
     def simplify(self, program):
         nb = len(program["bodies"])
-        for key in ("prelude", "padded"):
+        for key in ("prelude", "padded", "shift_frac"):
             if program.get(key):
                 c = copy.deepcopy(program)
                 c.pop(key)
